@@ -182,6 +182,109 @@ NOTHING.ghost_state = ("__written",)
 NOTHING.fstring_model = _fstring_csv
 TASKS.append(FunctionTask(NOTHING, module_env=_CLI_ENV, label="hvsrpy.cli._process_hvsr[--no_figure --no_file]", clauses=["--no_file writes nothing"]))
 
+# ---------------------------------------------------------------------------------------------------------------------
+# cli() on its executed body: what the pool is asked to do.  Task i is (file name i, the preprocessing settings object read from the preprocessing file, the
+# processing settings object read from the processing file, the remaining options) for the worker _process_hvsr - one task per file name, in the order given,
+# every task with the same two settings objects and option dictionary; the options keep the caller's values; nothing is started under --no_figure --no_file.
+# A-POOL: starmap runs every task once (tasks of a chunk share the unpickled argument objects - hence the worker's own copies, proved above).
+from pyvc.core import SeqV
+NFILES = z3.Int("n_file_names")
+FN_AT = z3.Function("file_name", I, I)
+SETTINGS_READ = z3.Function("settings_object_read_from", I, I)      # settings file id -> content id of the object the reader returns
+PRE_FILE, PROC_FILE = z3.Ints("preprocessing_settings_file processing_settings_file")
+NPROC, CPUS = z3.Ints("nproc_option cpu_count")
+NOFIG, NOFILE = z3.Bools("no_figure no_file")
+YMAX = z3.Real("ymax_option")
+
+
+def _main_inputs(nproc_given):
+    def mk(ex, st):
+        st.env["ctx"] = NONE
+        st.env["kwargs"] = DictV({"file_names": SeqV(NFILES, lambda ex_, st_, i: FN_AT(i), owner="param:file_names", name="file_names"),
+                                  "preprocessing_settings_file": PRE_FILE, "processing_settings_file": PROC_FILE, "distribution_fn": DFN, "distribution_mc": DMC,
+                                  "no_figure": NOFIG, "no_file": NOFILE, "ymax": YMAX, "nproc": NPROC if nproc_given else NONE})
+        st.env["__pools"], st.env["__starmaps"] = [], []
+        # preconditions: at least one file name; a positive number of workers (with a single CPU and no --nproc the default is 0 workers and the command fails
+        # with an error before any file is processed - no output, hence no wrong output)
+        return [NFILES >= 1, NPROC >= 1, CPUS >= 2]
+    return mk
+
+
+def _m_repeat19(ex, st, args, kw, node):
+    inf = ex.fresh("unbounded", I)
+    st.pc.append(inf >= NFILES)            # itertools.repeat never ends: longer than any list of file names
+    x = args[0]
+    return SeqV(inf, lambda ex_, st_, i: x, owner="fresh", name="repeat")
+
+
+def _m_read_settings(ex, st, args, kw, node):
+    return ex.alloc_obj(st, "Settings", {"content": SETTINGS_READ(lit(args[0])), "is_copy": z3.BoolVal(False)}, "fresh")
+
+
+def _m_pool(ex, st, args, kw, node):
+    p_ = ex.alloc_obj(st, "Pool", {"size": lit(args[0])}, "fresh")
+    st.env["__pools"] = st.env["__pools"] + [p_]
+    return p_
+
+
+def _m_starmap(ex, st, args, kw, node):
+    pool, fn, tasks = args
+    st.env["__starmaps"] = st.env["__starmaps"] + [(pool, fn, tasks, kw.get("chunksize", NONE))]
+    return NONE
+
+
+def _one_batch(ex, st, a, k, n_):
+    """one pool, one starmap on it, for the worker"""
+    ps, sm = st.env["__pools"], st.env["__starmaps"]
+    return z3.BoolVal(len(ps) == 1 and len(sm) == 1 and sm[0][0].oid == ps[0].oid and isinstance(sm[0][1], FuncV) and sm[0][1].name == "_process_hvsr" and isinstance(sm[0][2], SeqV))
+
+
+def _task_is(ex, st, a, k, n_):
+    """task i = (file name i, object read from the preprocessing file, object read from the processing file, the option dictionary with the caller's values)"""
+    sm = st.env["__starmaps"]
+    if len(sm) != 1 or not isinstance(sm[0][2], SeqV):
+        return z3.BoolVal(False)
+    t = sm[0][2].getter(ex, st, lit(a[0]))
+    if not isinstance(t, Tup) or len(t) != 4 or not isinstance(t[1], ORef) or not isinstance(t[2], ORef) or not isinstance(t[3], DictV):
+        return z3.BoolVal(False)
+    opts = t[3].items
+    want = {"distribution_fn": DFN, "distribution_mc": DMC, "no_figure": NOFIG, "no_file": NOFILE, "ymax": YMAX}
+    if any(key not in opts or not z3.is_expr(lit(opts[key])) for key in want):
+        return z3.BoolVal(False)
+    return z3.And(lit(t[0]) == FN_AT(lit(a[0])), st.heap[t[1].oid].fields["content"] == SETTINGS_READ(PRE_FILE), st.heap[t[2].oid].fields["content"] == SETTINGS_READ(PROC_FILE),
+                  *[lit(opts[key]) == v for key, v in want.items()])
+
+
+def _n_tasks(ex, st, a, k, n_):
+    sm = st.env["__starmaps"]
+    return sm[0][2].length if len(sm) == 1 and isinstance(sm[0][2], SeqV) else z3.IntVal(-1)
+
+
+_MAIN_GHOST = {"one_batch": FuncV(_one_batch, "one_batch"), "task_is": FuncV(_task_is, "task_is"), "n_tasks": FuncV(_n_tasks, "n_tasks"), "NFILES": NFILES,
+               "nothing_started": FuncV(lambda ex, st, a, k, n_: z3.BoolVal(not st.env["__pools"] and not st.env["__starmaps"]), "nothing_started"),
+               "pool_size": FuncV(lambda ex, st, a, k, n_: st.heap[st.env["__pools"][0].oid].fields["size"] if st.env["__pools"] else z3.IntVal(-1), "pool_size"),
+               "chunksize": FuncV(lambda ex, st, a, k, n_: lit(st.env["__starmaps"][0][3]) if st.env["__starmaps"] and st.env["__starmaps"][0][3] is not NONE else z3.IntVal(-1), "chunksize"),
+               "NOFIG": NOFIG, "NOFILE": NOFILE, "WORKERS": None}
+_POOL = FuncV(_m_pool, "Pool", attrs={"context_manager": True})
+_MAIN_ENV = {"read_settings_object_from_file": FuncV(_m_read_settings, "read_settings_object_from_file"), "Pool": _POOL,
+             "os": ModV("os", {"cpu_count": FuncV(lambda ex, st, a, k, n_: CPUS, "os.cpu_count")}),
+             "itertools": ModV("itertools", {"repeat": FuncV(_m_repeat19, "itertools.repeat")}),
+             "_process_hvsr": FuncV(lambda ex, st, a, k, n_: NONE, "_process_hvsr")}
+for _given in (False, True):
+    _workers = "NPROC" if _given else "CPUS - 1"
+    _g = dict(_MAIN_GHOST, WORKERS=(NPROC if _given else CPUS - 1), NPROC=NPROC, CPUS=CPUS)
+    _c = Contract(qual="hvsrpy.cli.cli", params=["ctx", "kwargs"], ghost=_g, make_inputs=_main_inputs(_given),
+                  ensures=["implies(NOFIG and NOFILE, nothing_started())",
+                           "implies(not (NOFIG and NOFILE), one_batch() and n_tasks() == NFILES and forall(i, 0, NFILES, task_is(i)))",
+                           "implies(not (NOFIG and NOFILE), pool_size() == min(NFILES, WORKERS) and chunksize() == max(1, NFILES // WORKERS))"],
+                  modifies=["param:kwargs"],
+                  notes="one task per file name in the order given, each with the file's own name and the same settings objects (read once from the two files) and options; "
+                        "pool of min(files, workers) processes, chunks of max(1, files // workers); with --no_figure --no_file no pool is started")
+    _c.ghost_state = ("__pools", "__starmaps")
+    TASKS.append(FunctionTask(_c, module_env=_MAIN_ENV, registry={"Pool.starmap": FuncV(_m_starmap, "Pool.starmap")},
+                              label=f"hvsrpy.cli.cli[--nproc {'given' if _given else 'default'}]",
+                              clauses=["one task per input file, in order, each with that file's name and the settings read from the two settings files"]))
+
 # the two library stages the worker calls are themselves dispatchers: their routing is part of "the library pipeline"
 import contracts.dispatch as _DISPATCH
 TASKS += _DISPATCH.PROCESS_TASKS + _DISPATCH.PREPROCESS_TASKS
